@@ -49,6 +49,7 @@ type sim struct {
 	orderly  bool
 	overflow bool
 	bad      []string // time-outs, panics, early returns (Go-side oracle)
+	done     map[int]bool // background Writes already accounted for at their start
 }
 
 func newSim(s *scriptScn) *sim {
@@ -335,6 +336,19 @@ func (m *sim) apply(s *scriptScn, idx int, a act, r actRes, results []actRes) {
 			m.bad = append(m.bad, "drain returned nothing")
 		}
 	case "bgread", "bgwrite":
+		if a.Op == "bgwrite" && r.Kind == "started" && results != nil {
+			// a Write that blocked in the trunk and later succeeded took its decisions when it started:
+			// it is placed here; one that failed is placed where it was joined (after the fault)
+			for j := idx + 1; j < len(s.Acts); j++ {
+				if s.Acts[j].Op == "join" && s.Acts[j].N == idx && results[j].Kind == "ok" {
+					if m.done == nil {
+						m.done = map[int]bool{}
+					}
+					m.done[idx] = true
+					m.doWrite(i, a.ID, a.Seq, a.Size, results[j])
+				}
+			}
+		}
 		if r.Kind == "early" {
 			// it was expected to block here: no model result matches
 			m.note(i, a.Op+" expected to block", r)
@@ -346,7 +360,9 @@ func (m *sim) apply(s *scriptScn, idx int, a act, r actRes, results []actRes) {
 		case "bgread":
 			m.doRead(b.Side, b.ID, r)
 		case "bgwrite":
-			m.doWrite(b.Side, b.ID, b.Seq, b.Size, r)
+			if !m.done[a.N] {
+				m.doWrite(b.Side, b.ID, b.Seq, b.Size, r)
+			}
 		}
 	case "close":
 		m.ev(i, "EvClose", obsOf(r, true))
